@@ -103,9 +103,9 @@ def run(ctx):
             break
         r = i % 4
         if r == 0:
-            case = gen_mol.cut_case(rng, virtual=rng.choice([0, 0, 1]))
+            case = gen_mol.cut_case(rng, virtual=rng.choice([0, 0, 1]), anno_p=rng.choice([0, 0, 0.3]))
         elif r == 1:
-            case = gen_levels.hier_case(rng)
+            case = gen_levels.hier_case(rng, share_p=rng.choice([0, 0.4]))
         else:
             case = gen_mol.ambiguous_case(rng)
         suites.run_resolve_case(ctx, 'resolve', case, oracle=oracle)
